@@ -128,7 +128,7 @@ func runWalk(c *Ctx) {
 						if hc, ok := e.Tuple.(*ssa.Call); ok && c.isPrevTypedOutputHelper(hc.Common().StaticCallee(), kinds.Out) && len(hc.Common().Args) == 2 {
 							if cur := assertOf(p.Bind(fr.Base)); cur != nil {
 								if cld, ok := cur.X.(*ssa.UnOp); ok {
-									if cia, ok := cld.X.(*ssa.IndexAddr); ok && cia.X == p.Bind(hc.Common().Args[0]) && cia.Index == p.Bind(hc.Common().Args[1]) {
+									if cia, ok := cld.X.(*ssa.IndexAddr); ok && p.Bind(cia.X) == p.Bind(hc.Common().Args[0]) && p.Bind(cia.Index) == p.Bind(hc.Common().Args[1]) {
 										for _, l := range lits {
 											if l.Kind == "bool" && l.Pol {
 												if e2, ok := l.Of.(*ssa.Extract); ok && e2.Tuple == ssa.Value(hc) && e2.Index == 1 {
@@ -149,7 +149,7 @@ func runWalk(c *Ctx) {
 										// same path and index as the current vertex
 										if cur := assertOf(p.Bind(fr.Base)); cur != nil {
 											if cld, ok := cur.X.(*ssa.UnOp); ok {
-												if cia, ok := cld.X.(*ssa.IndexAddr); ok && cia.X == p.Bind(ia.X) && cia.Index == p.Bind(b.X) {
+												if cia, ok := cld.X.(*ssa.IndexAddr); ok && p.Bind(cia.X) == p.Bind(ia.X) && p.Bind(cia.Index) == p.Bind(b.X) {
 													prevOK = true
 												}
 											}
@@ -256,7 +256,24 @@ func runWalk(c *Ctx) {
 		// the struct the fields are read from is the adapted result of the Result parameter
 		fromResult := false
 		if structVal != nil {
-			for _, s := range core.Sources(structVal) {
+			for _, s := range p.ISources(structVal) {
+				// values derived by Elem()/pointer unwrapping of an output element
+				for i := 0; i < 4; i++ {
+					cl, ok := s.(*ssa.Call)
+					if !ok || core.CalleeName(cl.Common()) != "(reflect.Value).Elem" {
+						break
+					}
+					srcs := core.Sources(cl.Common().Args[0])
+					if len(srcs) == 0 {
+						break
+					}
+					s = srcs[0]
+					for _, alt := range srcs {
+						if _, isLd := alt.(*ssa.UnOp); isLd {
+							s = alt
+						}
+					}
+				}
 				if ld, ok := s.(*ssa.UnOp); ok {
 					if ia, ok := ld.X.(*ssa.IndexAddr); ok {
 						if fr, ok := core.AsFieldLoad(ia.X); ok && fr.Owner == "Result" && fr.Field == "out" {
